@@ -8,6 +8,7 @@
 package schema
 
 import (
+	"encoding/json"
 	"fmt"
 	"reflect"
 	"strconv"
@@ -184,6 +185,7 @@ func (g *Generator) generateStructSchemaWithRefs(t reflect.Type) *openapi3.Schem
 		if err := parseJSONSchemaTags(field.Tag, fieldSchema); err != nil {
 			continue
 		}
+		fieldSchema = quotedFieldSchema(field, fieldSchema)
 
 		schema.Properties[jsonName] = openapi3.NewSchemaRef("", fieldSchema)
 
@@ -466,6 +468,7 @@ func convertStructToSchemaWithDepthLimit(t reflect.Type, visited map[reflect.Typ
 		if err := parseJSONSchemaTags(field.Tag, fieldSchema); err != nil {
 			continue
 		}
+		fieldSchema = quotedFieldSchema(field, fieldSchema)
 
 		schema.Properties[jsonName] = openapi3.NewSchemaRef("", fieldSchema)
 
@@ -575,6 +578,7 @@ func convertStructToSchemaWithVisited(t reflect.Type, visited map[reflect.Type]*
 			// Log error but continue processing
 			continue
 		}
+		fieldSchema = quotedFieldSchema(field, fieldSchema)
 
 		// Add to properties
 		schema.Properties[jsonName] = openapi3.NewSchemaRef("", fieldSchema)
@@ -672,6 +676,49 @@ func jsonFields(t reflect.Type) []reflect.StructField {
 		level = next
 	}
 	return fields
+}
+
+// quotedFieldSchema returns the schema of a field tagged `json:",string"`:
+// encoding/json writes (and expects) such a field as a string holding the JSON
+// text of its value when its type is a string, a number or a bool. The
+// description, the enum values and the default are carried over in that form;
+// other fields keep their schema.
+func quotedFieldSchema(field reflect.StructField, schema *openapi3.Schema) *openapi3.Schema {
+	options := strings.Split(field.Tag.Get("json"), ",")
+	quoted := false
+	for _, option := range options[1:] {
+		if option == "string" {
+			quoted = true
+		}
+	}
+	if !quoted {
+		return schema
+	}
+	t := field.Type
+	if t.Kind() == reflect.Ptr {
+		t = t.Elem()
+	}
+	switch t.Kind() {
+	case reflect.String, reflect.Bool, reflect.Float32, reflect.Float64,
+		reflect.Int, reflect.Int8, reflect.Int16, reflect.Int32, reflect.Int64,
+		reflect.Uint, reflect.Uint8, reflect.Uint16, reflect.Uint32, reflect.Uint64, reflect.Uintptr:
+	default:
+		return schema
+	}
+	quotedSchema := openapi3.NewStringSchema()
+	quotedSchema.Title = schema.Title
+	quotedSchema.Description = schema.Description
+	for _, value := range schema.Enum {
+		if text, err := json.Marshal(value); err == nil {
+			quotedSchema.Enum = append(quotedSchema.Enum, string(text))
+		}
+	}
+	if schema.Default != nil {
+		if text, err := json.Marshal(schema.Default); err == nil {
+			quotedSchema.Default = string(text)
+		}
+	}
+	return quotedSchema
 }
 
 // getJSONFieldName extracts the JSON field name from struct field
@@ -1044,6 +1091,8 @@ func (g *NestedRefGenerator) generateStructSchema(t reflect.Type) *openapi3.Sche
 				fieldSchema.Description = desc
 			}
 		}
+
+		fieldSchema = quotedFieldSchema(field, fieldSchema)
 
 		// Make field nullable using JSON Schema standard anyOf syntax
 		// This allows JSON null values for proto3 optional message fields
